@@ -47,6 +47,17 @@ def run(ctx):
             R.add_prop([l1, l2], oracle, 'unknown special entries / trailing bytes changed the printed text', tags, n > 0 and nev > 0)
         else:
             R.add_prop([l1, l2], lambda o: True if o[0] == o[1] and o[0].startswith('ok=') else 'text differs (TextOutputStream)', 'unknown special entries / trailing bytes changed the printed text', tags, n > 0 and nev > 0)
+    # the format bounds a decoration only by the 32-bit size field: a 17 MiB unknown entry and 17 MiB of trailing bytes (implementation only:
+    # the extracted model is not run on lists of that length)
+    g = StreamGen(rng, redefine=0.0); entries = g.valid_stream(8) + [g.event(), g.event()]
+    big = 17 * (1 << 20) + rng.randrange(1000)
+    last_ev = max(i for i, e in enumerate(entries) if int.from_bytes(e[4:12], 'little') < (1 << 63))
+    for mode in ('print', 'sorted'):
+        l1 = '%s %s - %s' % (mode, hx(b'%S %m\n'), hx(b''.join(entries)))
+        d1 = entries[:2] + [frame(u(8, (1 << 64) - 100) + b'\xab' * big)] + entries[2:]
+        d2 = entries[:last_ev] + [frame(entries[last_ev][4:] + b'\xcd' * big)] + entries[last_ev + 1:]
+        for dname, d in (('unknown_entry', d1), ('trailing_bytes_on_event', d2)):
+            R.add_prop([l1, '%s %s - %s' % (mode, hx(b'%S %m\n'), hx(b''.join(d)))], oracle, 'unknown special entries / trailing bytes changed the printed text', (mode, 'decoration_17MiB_' + dname), True)
     return R.execute()
 
 def search(ctx):
